@@ -1,22 +1,9 @@
 import D2P.Model.Walk
+import D2P.Check.C01
 /-!
 # The collector's tree always has the four-level shape (lemmas for C01)
 -/
 namespace D2P
-
-mutual
-/-- `wf n x`: `x` is `n` list levels above paragraphs -/
-def wf : Nat → Nest → Bool
-  | 0, .par _ => true
-  | n+1, .list xs => wfL n xs
-  | _, _ => false
-def wfL : Nat → List Nest → Bool
-  | _, [] => true
-  | n, x :: xs => wf n x && wfL n xs
-end
-
-/-- root items are tables: three list levels above paragraphs -/
-def Shape4 (root : List Nest) : Prop := wfL 3 root = true
 
 theorem wfL_append (n : Nat) (xs ys : List Nest) : wfL n (xs ++ ys) = (wfL n xs && wfL n ys) := by
   induction xs with
